@@ -5,6 +5,8 @@
 -/
 import TdVerif.Model.C13Module
 import TdVerif.Lemmas.C13
+import TdVerif.Model.C13Params
+import TdVerif.Lemmas.C13Params
 
 namespace TdVerif.Props.C13
 open TdVerif.C13
@@ -82,7 +84,8 @@ theorem from_module_exact (h : Heap) (hwf : ∀ c, NamesWF (h c)) (fuel : Nat) (
 /-! ## with-blocks -/
 
 /-- **blocks_restore** — any program of with-blocks, nested to any depth, with `raise` at any point of
-any body and `try/except` anywhere: `__exit__` never fails, and unless some `to_module` call itself
+any body and `try/except` anywhere, each block's parameter tensordict either still referenced at
+`__exit__` or already collected (a temporary / deleted in the body: the swap's weak reference is dead): `__exit__` never fails, and unless some `to_module` call itself
 raised on entry, at the end every module binds the very same objects under the same names as at the
 start, and no swap tensordict keeps a record in its `_last_op_queue`. -/
 theorem blocks_restore (prog : List Stmt) (σ : State) (hwf : HeapWF σ.heap) (hok : ProgOK prog) :
@@ -106,20 +109,20 @@ theorem exec_append_normal (ex) (pre post : List Stmt) (σ σ' : State)
     · exact ih σ1 h
 
 /-- **with_block_restores_normal** -/
-theorem with_block_restores_normal (σ : State) (p : List (Name × PTree)) (m : MId) (body : List Stmt)
+theorem with_block_restores_normal (σ : State) (p : List (Name × PTree)) (m : MId) (temp : Bool) (body : List Stmt)
     (hwf : HeapWF σ.heap) (hnd : LeafNodup p) (hbody : ProgOK body)
-    (hst : (exec σ [.block p m body]).2 = .normal) : HeapEq (exec σ [.block p m body]).1.heap σ.heap :=
-  ((blocks_restore [.block p m body] σ hwf (by simp [ProgOK, StmtOK, hnd, hbody])).2 (by rw [hst]; simp)).1
+    (hst : (exec σ [.block p m temp body]).2 = .normal) : HeapEq (exec σ [.block p m temp body]).1.heap σ.heap :=
+  ((blocks_restore [.block p m temp body] σ hwf (by simp [ProgOK, StmtOK, hnd, hbody])).2 (by rw [hst]; simp)).1
 
 /-- **with_block_restores_on_raise** — `with p.to_module(m): pre; raise; post` where `to_module`
 succeeded and `pre` ran normally: the exception propagates out of the block and the module is restored. -/
 theorem with_block_restores_on_raise (σ σ1 σ2 : State) (i : Nat) (p : List (Name × PTree)) (m : MId)
-    (pre post : List Stmt) (hwf : HeapWF σ.heap) (hnd : LeafNodup p) (hpre : ProgOK pre) (hpost : ProgOK post)
-    (hentry : toModule σ p m = .ok (σ1, i))
+    (temp : Bool) (pre post : List Stmt) (hwf : HeapWF σ.heap) (hnd : LeafNodup p) (hpre : ProgOK pre) (hpost : ProgOK post)
+    (hentry : toModule σ p m temp = .ok (σ1, i))
     (hrun : exec (enterBlock σ1 i) pre = (σ2, .normal)) :
-    (exec σ [.block p m (pre ++ .raise :: post)]).2 = .raised ∧
-    HeapEq (exec σ [.block p m (pre ++ .raise :: post)]).1.heap σ.heap := by
-  have hok : ProgOK [.block p m (pre ++ .raise :: post)] := by
+    (exec σ [.block p m temp (pre ++ .raise :: post)]).2 = .raised ∧
+    HeapEq (exec σ [.block p m temp (pre ++ .raise :: post)]).1.heap σ.heap := by
+  have hok : ProgOK [.block p m temp (pre ++ .raise :: post)] := by
     have : ∀ (a b : List Stmt), ProgOK a → ProgOK b → ProgOK (a ++ b) := by
       intro a b ha hb
       induction a with
@@ -131,7 +134,7 @@ theorem with_block_restores_on_raise (σ σ1 σ2 : State) (i : Nat) (p : List (N
   have hbody : exec (enterBlock σ1 i) (pre ++ .raise :: post) = (σ2, .raised) := by
     unfold exec at hrun ⊢
     rw [exec_append_normal _ pre _ _ σ2 hrun]; simp [execList, execStmt]
-  have hstatus : (exec σ [.block p m (pre ++ .raise :: post)]).2 = .raised := by
+  have hstatus : (exec σ [.block p m temp (pre ++ .raise :: post)]).2 = .raised := by
     have hne := hspec.1
     unfold exec at hbody hne ⊢
     simp only [execList, execStmt, hentry, hbody] at hne ⊢
@@ -143,10 +146,10 @@ theorem with_block_restores_on_raise (σ σ1 σ2 : State) (i : Nat) (p : List (N
 /-- **nested_blocks_restore** (LIFO) — two blocks nested on the same or different modules, the inner
 body raising or not, an exception caught between them or not: a special case of `blocks_restore`
 spelled out for the common shape. -/
-theorem nested_blocks_restore (σ : State) (p1 p2 : List (Name × PTree)) (m1 m2 : MId) (body : List Stmt)
+theorem nested_blocks_restore (σ : State) (p1 p2 : List (Name × PTree)) (m1 m2 : MId) (t1 t2 : Bool) (body : List Stmt)
     (hwf : HeapWF σ.heap) (h1 : LeafNodup p1) (h2 : LeafNodup p2) (hb : ProgOK body)
-    (hne : (exec σ [.block p1 m1 [.block p2 m2 body]]).2 ≠ .entryFailed) :
-    HeapEq (exec σ [.block p1 m1 [.block p2 m2 body]]).1.heap σ.heap :=
+    (hne : (exec σ [.block p1 m1 t1 [.block p2 m2 t2 body]]).2 ≠ .entryFailed) :
+    HeapEq (exec σ [.block p1 m1 t1 [.block p2 m2 t2 body]]).1.heap σ.heap :=
   ((blocks_restore _ σ hwf (by simp [ProgOK, StmtOK, h1, h2, hb])).2 hne).1
 
 /-! ## the pinned code (4564555) does not have these properties: regression anchors -/
@@ -157,11 +160,11 @@ def h0 : Heap := fun c =>
 /-- pinned `__exit__`: an exception in the body leaves the parameter out of `_parameters` (the swapped-in
 tensor sits in `__dict__`) and the record in `_last_op_queue`. -/
 theorem old_exit_on_raise_counterexample :
-    (execOld ⟨h0, []⟩ [.tryExcept [.block [("w", .leaf ⟨10, false⟩)] 0 [.raise]]]).2 = .normal ∧
-    cellAt (execOld ⟨h0, []⟩ [.tryExcept [.block [("w", .leaf ⟨10, false⟩)] 0 [.raise]]]).1.heap 0 "w"
+    (execOld ⟨h0, []⟩ [.tryExcept [.block [("w", .leaf ⟨10, false⟩)] 0 false [.raise]]]).2 = .normal ∧
+    cellAt (execOld ⟨h0, []⟩ [.tryExcept [.block [("w", .leaf ⟨10, false⟩)] 0 false [.raise]]]).1.heap 0 "w"
       = ⟨none, none, some ⟨10, false⟩⟩ ∧
     cellAt h0 0 "w" = ⟨some (some ⟨1, true⟩), none, none⟩ ∧
-    ((execOld ⟨h0, []⟩ [.tryExcept [.block [("w", .leaf ⟨10, false⟩)] 0 [.raise]]]).1.td 0).queue.length = 1 := by
+    ((execOld ⟨h0, []⟩ [.tryExcept [.block [("w", .leaf ⟨10, false⟩)] 0 false [.raise]]]).1.td 0).queue.length = 1 := by
   simp [execOld, execList, execStmt, toModule, swap, swapEntries, swapEntriesWith, setTensor, setTensorWith,
     h0, Dict.get?, Dict.pop, place, Dict.set, Option.join, enterBlock, exitBlockOld, State.td, State.setTd,
     Heap.upd, cellAt, Mod.cell]
@@ -197,11 +200,11 @@ example : HeapWF h0 := by
       · simp [Mod.cell, Dict.get?, h1, h2, CellWF]
   · simp [hc, Mod.cell, Dict.get?, CellWF]
 
-example : (exec ⟨h0, []⟩ [.tryExcept [.block [("w", .leaf ⟨10, false⟩), ("rm", .leaf ⟨11, true⟩)] 0 [.nop, .raise]]]).2
+example : (exec ⟨h0, []⟩ [.tryExcept [.block [("w", .leaf ⟨10, false⟩), ("rm", .leaf ⟨11, true⟩)] 0 true [.nop, .raise]]]).2
     = .normal := by
   simp [exec, execList, execStmt, toModule, swap, swapEntries, swapEntriesWith, setTensor, setTensorWith,
     h0, Dict.get?, Dict.pop, place, Dict.set, Option.join, enterBlock, exitBlock, quickSet, State.td, State.setTd, Heap.upd]
-example : cellAt (exec ⟨h0, []⟩ [.tryExcept [.block [("w", .leaf ⟨10, false⟩), ("rm", .leaf ⟨11, true⟩)] 0 [.nop, .raise]]]).1.heap 0 "rm"
+example : cellAt (exec ⟨h0, []⟩ [.tryExcept [.block [("w", .leaf ⟨10, false⟩), ("rm", .leaf ⟨11, true⟩)] 0 true [.nop, .raise]]]).1.heap 0 "rm"
     = cellAt h0 0 "rm" := by
   simp [exec, execList, execStmt, toModule, swap, swapEntries, swapEntriesWith, setTensor, setTensorWith,
     h0, Dict.get?, Dict.pop, place, Dict.set, Option.join, enterBlock, exitBlock, quickSet, State.td, State.setTd,
@@ -220,5 +223,97 @@ example : fromModule h2 3 0 = .ok (some [("w", .leaf ⟨1, true⟩),
 example : namedTensors h2 3 0 = .ok [(["w"], ⟨1, true⟩), (["a", "w"], ⟨1, true⟩), (["a", "rm"], ⟨2, false⟩),
     (["b2", "w"], ⟨1, true⟩), (["b2", "rm"], ⟨2, false⟩)] := by
   simp [namedTensors, namedKids, h2, ownTensors]
+
+
+/-- the weak reference to the parameter tensordict is dead at `__exit__` (a temporary, or deleted
+in the body): the module is restored all the same — `blocks_restore` instantiated, spelled out because
+this is the path where `_reverse_to_module` receives `out=None`. -/
+theorem with_block_restores_when_params_collected (σ : State) (p : List (Name × PTree)) (m : MId)
+    (body : List Stmt) (hwf : HeapWF σ.heap) (hnd : LeafNodup p) (hbody : ProgOK body)
+    (hne : (exec σ [.block p m true body]).2 ≠ .entryFailed) :
+    HeapEq (exec σ [.block p m true body]).1.heap σ.heap ∧ (exec σ [.block p m true body]).2 ≠ .exitFailed := by
+  have h := blocks_restore [.block p m true body] σ hwf (by simp [ProgOK, StmtOK, hnd, hbody])
+  exact ⟨(h.2 hne).1, h.1⟩
+
+/-! ## TensorDictParams -/
+open TdVerif.C13.Params in
+/-- **params_exposes_leaves (registry)** — when the flattened names of the leaves are pairwise distinct,
+`_reset_params` registers exactly the leaves: every leaf is found under its dotted name in `_parameters`
+if it is an `nn.Parameter` and in `_buffers` otherwise, as the very same object; every registered entry
+is such a leaf; no name is registered in both. -/
+theorem reset_params_exact (leaves : List (Path × Tn)) (hnd : (leaves.map (fun e => flatName e.1)).Nodup) :
+    (∀ p t, (p, t) ∈ leaves →
+      Dict.get? (if t.isParam then (resetParams leaves).1 else (resetParams leaves).2) (flatName p) = some t) ∧
+    (∀ n t, Dict.get? (resetParams leaves).1 n = some t → ∃ p, (p, t) ∈ leaves ∧ flatName p = n ∧ t.isParam = true) ∧
+    (∀ n t, Dict.get? (resetParams leaves).2 n = some t → ∃ p, (p, t) ∈ leaves ∧ flatName p = n ∧ t.isParam = false) ∧
+    (∀ n, Dict.get? (resetParams leaves).1 n = none ∨ Dict.get? (resetParams leaves).2 n = none) := by
+  have hP : ∀ n, Dict.get? (resetParams leaves).1 n = lastWith leaves true n := by
+    intro n; rw [resetParams_eq, fold_params]; cases lastWith leaves true n <;> simp [Dict.get?]
+  have hB : ∀ n, Dict.get? (resetParams leaves).2 n = lastWith leaves false n := by
+    intro n; rw [resetParams_eq, fold_buffers]; cases lastWith leaves false n <;> simp [Dict.get?]
+  refine ⟨?_, ?_, ?_, ?_⟩
+  · intro p t hm
+    have := lastWith_of_mem leaves hnd p t hm
+    cases ht : t.isParam
+    · simp only [ht] at this; simp [hB, this]
+    · simp only [ht] at this; simp [hP, this]
+  · intro n t h; rw [hP] at h; exact lastWith_mem leaves true n t h
+  · intro n t h; rw [hB] at h; exact lastWith_mem leaves false n t h
+  · intro n
+    rw [hP, hB]
+    cases h1 : lastWith leaves true n with
+    | none => left; rfl
+    | some t1 =>
+      cases h2 : lastWith leaves false n with
+      | none => right; rfl
+      | some t2 =>
+        exfalso
+        obtain ⟨p1, hm1, hn1, hk1⟩ := lastWith_mem leaves true n t1 h1
+        obtain ⟨p2, hm2, hn2, hk2⟩ := lastWith_mem leaves false n t2 h2
+        -- two leaves with the same flattened name: they are the same leaf
+        have e1 := lastWith_of_mem leaves hnd p1 t1 hm1
+        have e2 := lastWith_of_mem leaves hnd p2 t2 hm2
+        rw [hn1, hk1] at e1; rw [hn2, hk2] at e2
+        have : ∀ (l : List (Path × Tn)), (l.map (fun e => flatName e.1)).Nodup →
+            ∀ a b : Path × Tn, a ∈ l → b ∈ l → flatName a.1 = flatName b.1 → a = b := by
+          intro l hl a b ha hb hab
+          induction l with
+          | nil => simp at ha
+          | cons x xs ih =>
+            simp only [List.map_cons, List.nodup_cons] at hl
+            rcases List.mem_cons.1 ha with rfl | ha' <;> rcases List.mem_cons.1 hb with rfl | hb'
+            · rfl
+            · exact absurd (List.mem_map.2 ⟨b, hb', hab.symm⟩) hl.1
+            · exact absurd (List.mem_map.2 ⟨a, ha', hab⟩) hl.1
+            · exact ih hl.2 ha' hb'
+        have hsame := this leaves hnd (p1, t1) (p2, t2) hm1 hm2 (by simp [hn1, hn2])
+        injection hsame with _ ht
+        subst ht; rw [hk1] at hk2; cases hk2
+
+open TdVerif.C13.Params in
+/-- **params_exposes_leaves (sequences)** — after any sequence of operations (structural ones go through
+`_unlock_and_set` / `update`, value-only ones through `_apply_on_data`, locking in between), the registry is
+the one `_reset_params` computes from the current leaves; with `reset_params_exact`: exactly the leaves. -/
+theorem params_exposes_leaves (s : TDP) (ops : List Op) (h : Exposed s) : Exposed (run s ops) := by
+  induction ops generalizing s with
+  | nil => exact h
+  | cons op ops ih =>
+    apply ih
+    cases op with
+    | mutate f =>
+      simp only [step]
+      by_cases hl : s.locked = true
+      · simp only [hl, if_true]; exact h
+      · simp only [hl]; rfl
+    | valuesOnly => exact h
+    | lock => exact h
+    | unlock => exact h
+
+open TdVerif.C13.Params in
+/-- a leaf whose *name* contains a dot collides with a nested key: `{"a.b": X, "a": {"b": Y}}` (both
+Parameters) registers one entry for two leaves — the reason for the distinct-names hypothesis. -/
+theorem reset_params_collision_counterexample :
+    (resetParams [(["a.b"], ⟨1, true⟩), (["a", "b"], ⟨2, true⟩)]).1 = [("a.b", ⟨2, true⟩)] := by
+  simp [resetParams, flatName, Dict.set]
 
 end TdVerif.Props.C13
